@@ -110,17 +110,47 @@ func (t *mTmpl) qf() quickfix.GroupTemplate {
 	return gt
 }
 
+// groupFill is how group entries are populated through the API (set by the property from a
+// generated draw): the order in which the members of an entry are set (0 template order,
+// 1 reverse, 2 rotated) and whether the entry object is first filled with other values,
+// serialised once, cleared and filled again (an entry object reused by the caller). The
+// template, not the call order, decides the wire order.
+var groupFill struct {
+	order int
+	reuse bool
+}
+
 func (g *mGroup) qf() *quickfix.RepeatingGroup {
 	rg := quickfix.NewRepeatingGroup(quickfix.Tag(g.tag), g.tmpl.qf())
 	for _, e := range g.entries {
 		qe := rg.Add()
+		if groupFill.reuse {
+			for k, m := range g.tmpl.members {
+				if m.nested == nil && (k == 0 || k%2 == 1) {
+					qe.FieldMap.SetString(quickfix.Tag(m.tag), "stale")
+				}
+			}
+			_ = rg.Write()
+			qe.FieldMap.Clear()
+		}
 		fillEntry(&qe.FieldMap, g.tmpl, e)
 	}
 	return rg
 }
 
 func fillEntry(fm *quickfix.FieldMap, t *mTmpl, e *mEntry) {
-	for _, m := range t.members {
+	members := append([]mMember(nil), t.members...)
+	switch groupFill.order {
+	case 1:
+		for i, j := 0, len(members)-1; i < j; i, j = i+1, j-1 {
+			members[i], members[j] = members[j], members[i]
+		}
+	case 2:
+		if len(members) > 1 {
+			members = append(members[1:], members[0])
+		}
+	}
+	for _, m := range members {
 		if m.nested == nil {
 			if v, ok := e.vals[m.tag]; ok {
 				fm.SetBytes(quickfix.Tag(m.tag), v)
@@ -441,6 +471,10 @@ func c10Property(t *rapid.T) {
 		}
 	}
 	ensureHead(msgs[0])
+	groupFill.order = rapid.IntRange(0, 2).Draw(t, "group-fill-order")
+	groupFill.reuse = rapid.Bool().Draw(t, "group-entry-reused")
+	defer func() { groupFill.order, groupFill.reuse = 0, false }()
+	overwriteGroups := rapid.Bool().Draw(t, "scalars-may-overwrite-groups")
 	nOps := rapid.IntRange(1, 40).Draw(t, "nops")
 	for op := 0; op < nOps; op++ {
 		cm := msgs[rapid.IntRange(0, len(msgs)-1).Draw(t, "msg")]
@@ -451,7 +485,8 @@ func c10Property(t *rapid.T) {
 			// prefer tags already present or removed earlier, so overwrite / set-again are common
 			var present []int
 			for k, it := range sec {
-				if it.grp == nil && k != 8 && k != 35 {
+				// (a tag that currently holds a group may be overwritten by a scalar too)
+				if k != 8 && k != 35 && (it.grp == nil || overwriteGroups) {
 					present = append(present, k)
 				}
 			}
@@ -475,6 +510,8 @@ func c10Property(t *rapid.T) {
 			how := setVia(t, fm, tag, v)
 			if it, ok := sec[tag]; ok && it.grp == nil {
 				feat["overwrite"] = true
+			} else if ok {
+				feat["group-overwritten-by-scalar"] = true
 			}
 			if removed[rkey(tag)] {
 				feat["remove-then-set"] = true
@@ -672,5 +709,9 @@ func TestReplay_C10_Fixed(t *testing.T) {
 			vk.Violation(t, c10(), "C10/copy/serialises-differently/copy-with-group", "source %s copy %s", vk.Show([]byte(cm.q.String())), vk.Show([]byte(dst.String())))
 		}
 		verifyBuilt(t, &c10msg{q: dst, m: cm.m}, map[string]bool{"copy-with-group": true})
+		// a scalar set on a tag that holds a group replaces the group, members included
+		cm.q.Body.SetString(5000, "0")
+		cm.m.b[5000] = &mItem{val: []byte("0")}
+		verifyBuilt(t, cm, map[string]bool{"group-overwritten-by-scalar": true})
 	})
 }
